@@ -1,4 +1,5 @@
 import PPProofs.Props.C14
+import PPProofs.Props.C14Src
 #print axioms PP.LineCol.C14_linecol_consistent
 #print axioms PP.LineCol.IsLineStart.unique
 #print axioms PP.LineCol.col_is_offset
@@ -10,3 +11,7 @@ import PPProofs.Props.C14
 #print axioms PP.LineCol.col_le_line_length
 #print axioms PP.LineCol.expandTabs_no_tab
 #print axioms PP.LineCol.expandTabs_idem
+#print axioms PP.LineCol.src_col_eq
+#print axioms PP.LineCol.src_lineno_eq
+#print axioms PP.LineCol.src_line_eq
+#print axioms PP.LineCol.src_col_index_in_range
